@@ -121,7 +121,25 @@ func Mutate(r *Rand, doc *GDoc) *Mutation {
 	}
 	join := func() string { return strings.Join(ls, "") }
 	for attempt := 0; attempt < 20; attempt++ {
-		switch r.Intn(15) {
+		switch r.Intn(16) {
+		case 15: // a non-ASCII blank (Unicode Zs) where the grammar demands a space or tab: between date and should-total, between value and summary
+			zs := Pick(r, []string{"\u00a0", "\u2003", "\u3000", "\u2009"})
+			if r.P(1, 2) {
+				i := pickLine("head")
+				if i < 0 {
+					continue
+				}
+				body, end := lineBody(ls[i])
+				ls[i] = body[:10] + zs + Pick(r, []string{"(8h!)", "(-30m!)"}) + end
+				return &Mutation{"zs-blank", join(), i}
+			}
+			i := pickLine("entry")
+			if i < 0 {
+				continue
+			}
+			_, end := lineBody(ls[i])
+			ls[i] = info[i].indent + Pick(r, []string{"8h", "-15m", "8:00 - 9:00", "8:00-?", "7:00 - ?"}) + zs + "text" + end
+			return &Mutation{"zs-blank", join(), i}
 		case 13: // a continuation line of an entry summary that consists of blank characters only
 			i := pickLine("cont")
 			if i < 0 {
